@@ -84,14 +84,23 @@ func (d *DB) Graph(name string) *GraphData {
 
 func (d *DB) HasGraph(name string) bool { _, ok := d.Graphs[name]; return ok }
 
+// AddNode keeps Nodes in ascending id order (stable: after equal ids); appending in id order is O(1).
 func (g *GraphData) AddNode(n *Node) {
 	g.Nodes = append(g.Nodes, n)
-	sort.SliceStable(g.Nodes, func(i, j int) bool { return g.Nodes[i].ID < g.Nodes[j].ID })
+	if k := len(g.Nodes) - 1; k > 0 && g.Nodes[k-1].ID > n.ID {
+		at := sort.Search(k, func(i int) bool { return g.Nodes[i].ID > n.ID })
+		copy(g.Nodes[at+1:], g.Nodes[at:k])
+		g.Nodes[at] = n
+	}
 }
 
 func (g *GraphData) AddRel(r *Rel) {
 	g.Rels = append(g.Rels, r)
-	sort.SliceStable(g.Rels, func(i, j int) bool { return g.Rels[i].ID < g.Rels[j].ID })
+	if k := len(g.Rels) - 1; k > 0 && g.Rels[k-1].ID > r.ID {
+		at := sort.Search(k, func(i int) bool { return g.Rels[i].ID > r.ID })
+		copy(g.Rels[at+1:], g.Rels[at:k])
+		g.Rels[at] = r
+	}
 }
 
 func (g *GraphData) node(id graph.ID) *Node {
